@@ -96,7 +96,7 @@ func runC03(c *core.Ctx) {
 	maxL := c.Pick(3, 6)
 	maxK := c.Pick(5, 10)
 	n := 0
-	for _, t := range dyn.Types[:dyn.NBuiltin] {
+	for _, t := range dyn.ElemTypes() {
 		for _, ch := range chans {
 			for l := 0; l <= maxL; l++ {
 				for k := l; k <= maxK; k++ {
